@@ -23,6 +23,9 @@ func v1Hello(magic uint32) []byte {
 
 const testNet3Magic = 0x0709110b
 
+// oversized is the shared buffer of the refused sends: only its length matters.
+var oversized = make([]byte, 1<<24)
+
 // corruptOracle (VERIF_V2_CORRUPT=content|len|status) deliberately falsifies
 // one field read from the specification state; used only to demonstrate that
 // the comparison is not vacuous.
@@ -70,6 +73,14 @@ func (s *session) step(prev, cur tla.State) error {
 		if c := last.F("ctr").Int(); c > s.maxCtr[actor] {
 			s.maxCtr[actor] = c
 		}
+	case "SendRefused":
+		// a send of more than 2^24 - 1 bytes must be refused and change nothing;
+		// what follows in the behaviour shows whether it did
+		if err := s.ep[actor].send(oversized, false); err == nil {
+			s.violation("send:oversized-accepted", fmt.Sprintf("endpoint %s accepted a send of %d bytes (maximum 2^24 - 1)", epName(actor), len(oversized)))
+			return nil
+		}
+		s.refused++
 	case "Fault":
 		e := epIndex(last.F("e").Str())
 		// truncation inside the initiator's key: "cut" lets the byte that
